@@ -1,7 +1,18 @@
 #!/bin/bash
-# import a round-3 seeded change produced by a sub-agent under /tmp/seed4/<id> into seeded/<id>/m4
-id=$1
-mkdir -p /verif/seeded/$id/m4
-cp /tmp/seed4/$id/patch.diff /tmp/seed4/$id/meta.json /verif/seeded/$id/m4/
-cp /tmp/seed4/$id/demo_m4.* /verif/seeded/$id/m4/ 2>/dev/null
-git -C /repo apply --check /verif/seeded/$id/m4/patch.diff && echo "applies: $id"
+# tools/import_seed.sh <round-dir> <m-name> <confirm-log> <id>... : import changes produced by sub-agents under <round-dir>/<id> into
+# seeded/<id>/<m-name>, recording my own confirmation (tools/confirm_seed.sh) in meta.json
+R=$1; M=$2; L=$3; shift 3
+for id in "$@"; do
+  line=$(grep "^$id: " $L | tail -1)
+  case "$line" in *"0 tests failed out of 662"*"pristine rc=0 patched rc=1"*) ;; *) echo "$id: not confirmed ($line)"; continue;; esac
+  mkdir -p /verif/seeded/$id/$M
+  cp $R/$id/patch.diff /verif/seeded/$id/$M/
+  cp $R/$id/demo_m* /verif/seeded/$id/$M/ 2>/dev/null
+  python3 - "$R/$id/meta.json" "/verif/seeded/$id/$M/meta.json" "$line" "$id" <<'P'
+import json, sys
+m = json.load(open(sys.argv[1])); m["property"] = sys.argv[4]
+m["confirmed"] = "tools/confirm_seed.sh (pristine and patched trees exported from /repo HEAD under /var/tmp/confirm, removed afterwards): " + sys.argv[3]
+json.dump(m, open(sys.argv[2], "w"), indent=1)
+P
+  git -C /repo apply --check /verif/seeded/$id/$M/patch.diff && echo "imported: $id/$M"
+done
